@@ -38,3 +38,8 @@ add("C01", "exploration",
     "Trusted: harness/ref bounds rules; cap==len carving turns over-reads into panics. Consumers with a high per-element cost only run when the traversal budget is <=1 MiB or the walk was small, so amplification up to the default 64 MiB budget is exercised only by the O(1)-per-element consumers. 64-bit only.",
     "grammar-based + mutation-based property testing with crash journal, lock-step reference decoder and watchdog (rapid); native fuzzing in the thorough tier",
     "DESIGN.md section 3, C01")
+add("C02", "exploration",
+    "Generated object graphs with cycles and shared targets (incl. lists of 100-1000 zero-sized elements) are encoded in drawn layouts and walked through the public API by DFS and random path scripts mixing struct fields, struct-list elements and pointer-list elements, under drawn traversal and depth limits: successes along a path never exceed D, the sizes handed out never exceed T, the budget (observed through a build-tag hook) starts at T, never rises and accounts for every object; 2-8 concurrent readers of one message are summed after the join under the race detector; Equal/Canonicalize/SetRoot/text/pogs must terminate on Z-shaped cyclic graphs without panic or stack exhaustion.",
+    "Trusted: harness/ref for object sizes; the VerifReadLimit observer (build tag verif). Concurrent interleavings are sampled by the Go scheduler, not enumerated; the race detector covers non-atomic updates, the sum-after-join oracle covers lost updates.",
+    "property-based testing over cyclic graph generators with invariant oracles, concurrency stress under -race (rapid)",
+    "DESIGN.md section 3, C02")
